@@ -55,6 +55,7 @@ def run(ctx):
     import os
     from harness import core, querycorpus
     editobs.run_histories(ctx, {"delete"}, "C04", ["MC_Edit_q.cfg"] if ctx.quick else ["MC_Edit_t.cfg"])
+    editobs.random_histories(ctx, "C04", 600 if ctx.quick else 6000, 8)
     # second layer: whatever a path matches on the real code (informational rules, repeats, nesting),
     # deleting must remove exactly those positions - DeleteNodes of the specification on the observed match set
     corpus = querycorpus.tlc_corpus(ctx, "MC_Query", ["MC_Query_q2.cfg"] if ctx.quick else ["MC_Query_t1.cfg", "MC_Query_t2.cfg"])
